@@ -46,6 +46,17 @@ structure Const where
   cid    : ConstId
   deriving DecidableEq, Repr, Inhabited
 
+/-- how a referenced function relates to the function under analysis (`Canonicalizer.funcRefName`) -/
+inductive FuncRel where
+  /-- the function under analysis itself (a recursive reference) -/
+  | self
+  /-- another member of its closure tree: `suffix` is the name with the outermost enclosing
+      function's name stripped (`$1`, `$1$2`, or empty for the outermost function itself) -/
+  | localTo (suffix : String)
+  /-- any other function: referred to by its qualified name -/
+  | external
+  deriving DecidableEq, Repr, Inhabited
+
 /-- an `ssa.Value` that can appear as an operand -/
 inductive Val where
   | instr   (id : Nat)
@@ -54,7 +65,7 @@ inductive Val where
   | const   (c : Const)
   | global  (pkg name typ : String)
   | builtin (name : String)
-  | func    (name sig : String)
+  | func    (qualified sig : String) (rel : FuncRel)
   deriving DecidableEq, Repr, Inhabited
 
 /-- type flags of a value's Go type: 1 integer, 2 string, 4 float, 8 complex, 16 map-or-chan -/
